@@ -293,7 +293,7 @@ def ord8_routing_tables(ctx):
         for m in ins:
             a0, a1 = m['args'][0], m['args'][1]
             key_ok = ('last_column' in idents_in(a0)) or any(x.get('member') == 'last_column' for x in walk(a0))
-            idx_ok = ('i' in idents_in(a1)) or any(x.get('k') == 'mcall' and x['method'] == 'len' for x in walk(a1))
+            idx_ok = a1.get('k') == 'path' or any(x.get('k') == 'mcall' and x['method'] == 'len' for x in walk(a1))
             good = good or (key_ok and idx_ok)
         ctx.check('ORD-8', '%s|last-column-index' % qual, good,
                   'subpartitions_by_last_column maps last_column -> position of the file entry',
